@@ -190,6 +190,11 @@ def _run_one(case, ctx):
     for _ in range(3 if ctx.tier == "quick" else 6):
         d = rand_assumption(rng, graph, top)
         m = recipes.fresh(case["recipe"])
+        if rng.random() < 0.15 and d and all(isinstance(v, int) and not isinstance(v, bool) for v in d.values()):
+            # other mapping types a caller may hold its assumption in (they are dicts): ids that are not keys stay unassumed
+            import collections
+            d = rng.choice([collections.Counter, lambda d_: collections.defaultdict(int, d_), collections.OrderedDict])(d)
+            ctx.count("count:dict-subclass-assumptions")
         ctx.call("assume", m.assume, d)
     # several assumptions on ONE base object (the assumed models are kept alive): each assumed model must still satisfy the
     # equation after the later calls -- the right-hand side is always evaluated on a freshly built model
